@@ -15,6 +15,7 @@ from vlib.spec import S, Pos, build, preorder, spec_json, deep_copy
 from vlib.universe import core_universe
 
 LEVEL = "exploration"
+TYPECHECK_OK = True  # every generated value conforms to its annotation: shards may run with RUNTIME_TYPE_CHECK on
 RULE = (
     "cases = trees without repeated node objects over the core universe (twins with equal content and origin at "
     "different positions, chains, wide tuples with index >= 10, all field shapes, multiple inheritance); per tree every "
